@@ -17,7 +17,7 @@ use neurons::tensor::Tensor;
 pub fn meta(ctx: &Ctx) -> Meta {
     let t = ctx.tier.thorough();
     Meta {
-        rule: format!("(a) single layers through their public backward(): {} of the lattice L for convolution, deconvolution, max-pool (linear activation; ring x E5), dense n,m in 1..4 x E5 x bias, input and upstream gradient given flat or as CxHxW: weight/kernel, bias and INPUT gradient vs the dual-number derivative of sum_k g_k*out_k. (a') a LARGE-VALUE ring (kernel 5,7; stride 3,4; padding 3; dilation 3; 4,8 channels; 8,16 filters; planes 12x13, 28x32) with <= 1 (thorough 2) deviations, HEAVY layers (3 channels, 8 filters, 24x30 plane: >= 64k multiply-adds; quick: the stride and dilation deviations of convolution and deconvolution, thorough: every single deviation of kernel / stride / padding / dilation per axis for all three kinds), wide dense layers (33, 65x64, 100, 241) alone and stacked; max-pool windows (7 kernel/stride settings) over pairwise distinct EXTREME finite values f32::MIN .. f32::MAX in every rotation, exact routing oracle. (b) networks: every layer sequence of <= {} tokens over 5 input shapes with <= {} deviations x 7 objectives (cycled), through Network::backward and through one learn() step with SGD (parameter change = -lr*gradient); soft-max head of width 2,3,5 under cross-entropy on every sequence of <= {} tokens, and soft-max OUTPUT LAYERS that are convolutions / deconvolutions: derivative of CE(softmax(z)); networks also built a second way, through placeholder activations and set_activation. Data re-drawn until every ReLU pre-activation and pool runner-up is >= 0.1 from a kink/tie. Non-trivial = case whose reference gradient has >= 2 distinct non-zero entries",
+        rule: format!("(a) single layers through their public backward(): {} of the lattice L for convolution, deconvolution, max-pool (linear activation; ring x E5), dense n,m in 1..4 x E5 x bias, input and upstream gradient given flat or as CxHxW: weight/kernel, bias and INPUT gradient vs the dual-number derivative of sum_k g_k*out_k. (a') a LARGE-VALUE ring (kernel 5,7; stride 3,4; padding 3; dilation 3; 4,8 channels; 8,16 filters; planes 12x13, 28x32) with <= 1 (thorough 2) deviations, HEAVY layers (3 channels, 8 filters, 24x30 plane: >= 64k multiply-adds; quick: the stride and dilation deviations of convolution and deconvolution, thorough: every single deviation of kernel / stride / padding / dilation per axis for all three kinds), wide dense layers (33, 65x64, 100, 241) alone and stacked; max-pool windows (7 kernel/stride settings) over pairwise distinct EXTREME finite values f32::MIN .. f32::MAX in every rotation, exact routing oracle. (b) networks: every layer sequence of <= {} tokens over 5 input shapes with <= {} deviations x 7 objectives (cycled), through Network::backward, through one learn() step with SGD (parameter change = -lr*gradient), and through Network::backward again on the trained network (all networks with a feedback block, a quarter of the others); soft-max head of width 2,3,5 under cross-entropy on every sequence of <= {} tokens, and soft-max OUTPUT LAYERS that are convolutions / deconvolutions: derivative of CE(softmax(z)); networks also built a second way, through placeholder activations and set_activation. Data re-drawn until every ReLU pre-activation and pool runner-up is >= 0.1 from a kink/tie. Non-trivial = case whose reference gradient has >= 2 distinct non-zero entries",
             if t { "the FULL lattice" } else { "the ring of <= 2 deviations" }, if t { 3 } else { 2 }, if t { 2 } else { 1 }, if t { 2 } else { 1 }),
         bound: "kernel <= 3, stride <= 2(3), padding <= 2, dilation <= 2, planes <= 6x7, depth <= 3 (+ soft-max head)".into(),
         exhaustive: true,
@@ -487,6 +487,47 @@ pub fn check_net(net: &Net, o: Obj, softmax_ce: bool, seed: u64, case: &Kv, rep:
                         case,
                     );
                     return;
+                }
+            }
+            // the same gradient check once more on the TRAINED network (anything a layer cached during the first backward
+            // pass or failed to refresh in the update would show here): networks with a feedback block, and every 4th other
+            let has_fb = net.layers.iter().any(|l| matches!(l, L::Fb { .. }));
+            if has_fb || fnv(&key) % 4 == 0 {
+                let after64 = to_f64(&after);
+                let tr2 = forward(net, &shapes, &after64, &x64, false);
+                // a step of 0.125 can send a linear network off to 1e40: only trained states of ordinary magnitude are judged
+                let tame = after64.iter().flat_map(|p| p.flat()).all(|v| v.is_finite() && v.abs() < 1.0e3)
+                    && tr2.activated.iter().flatten().all(|v| v.is_finite() && v.abs() < 1.0e3)
+                    && tr2.layers.iter().all(|l| l.pre.iter().chain(l.inner.iter().flat_map(|i| i.pre.iter())).all(|v| v.is_finite() && v.abs() < 1.0e3));
+                if tame && tr2.min_kink >= 0.02 && tr2.min_gap >= 0.02 && tr2.max_sat <= 4.0 {
+                    rep.transitions += 2 * net.layers.len() as u64;
+                    let second = guard(|| {
+                        let (pre, post, max, fbs) = lib.forward(&xt);
+                        let (_, og2) = objf.loss(post.last().unwrap(), &tt);
+                        let g2: Vec<f64> = flat_dims(&og2).map(|d| d.1.iter().map(|v| *v as f64).collect()).unwrap_or_default();
+                        let (wg, bg) = neurons::verif::backward(&lib, og2, &pre, &post, &max, fbs);
+                        (g2, wg, bg)
+                    });
+                    match second {
+                        Ok((g2, wg, bg)) => match libnet::grads_from_lib(&wg, &bg, net) {
+                            Ok(got2) => {
+                                let vjp2 = |out: &[Dual]| -> Dual {
+                                    let mut s = Dual::c(0.0);
+                                    for (oo, w) in out.iter().zip(&g2) {
+                                        s = s + *oo * Dual::c(*w);
+                                    }
+                                    s
+                                };
+                                let (want2, _) = if softmax_ce { gradients(net, &shapes, &after64, &x64, &loss_ce) } else { gradients(net, &shapes, &after64, &x64, &vjp2) };
+                                rep.count("gradient_checks_after_a_training_step", 1);
+                                let _ = compare_params(net, &got2, &want2, "after a training step", case, rep);
+                            }
+                            Err(e) => rep.violate("C01 backward returns inconsistent gradients", format!("{} after a training step: {}", net.name(), e), case),
+                        },
+                        Err(e) => rep.violate("C01 network backward panics", format!("{} after a training step: {}", net.name(), crate::util::first_line(&e)), case),
+                    }
+                } else {
+                    rep.count("after_training_checks_skipped_near_a_kink_or_diverged", 1);
                 }
             }
         }
